@@ -4,6 +4,7 @@ import CwMt.Proofs.TxSites
 import CwMt.Proofs.Executor
 import CwMt.Proofs.Layout
 import CwMt.Proofs.Json
+import CwMt.Proofs.FlatChain
 /-
   C01 — Top-level transactions are atomic: all-or-nothing, in order.
   Model: CwMt/Model/Engine.lean (`App.executeMulti`, `App.execute`, `App.sudo`, `App.wasmSudo`,
@@ -224,5 +225,56 @@ theorem stored_contract_bytes_injective {a b : ContractData} (h : Json.contractJ
 /-- not vacuous: a balance with an awkward denomination and a contract without admin -/
 example : (Json.parseBalances (Json.balances [⟨"d\"\n", 5⟩, ⟨"é", 0⟩])).map (·.1) = some [⟨"d\"\n", 5⟩, ⟨"é", 0⟩] := by
   rw [← List.append_nil (Json.balances _), json_balances_roundtrip]; rfl
+
+/-! ### the flat store of a typed state (`Flat.flatten`, what `rawdump` prints)
+
+`Flat.FlatWF ch`: no address twice in the ledger, the registry or the map of contract stores, every contract store sorted, contract
+addresses of at most 65521 bytes (beyond that the real length prefix panics). -/
+
+/-- the flat store holds exactly the raw records of the typed state -/
+theorem flat_store_is_the_records (ch : Chain E) (wf : Flat.FlatWF ch) (k : Key) (v : Val) :
+    (Flat.flatten ch).get k = some v ↔ (k, v) ∈ Flat.records ch :=
+  Flat.flatten_get_iff ch wf k v
+
+/-- under `00 04 bank 00 08 balances ‖ a`: the JSON text of `a`'s balance; nothing for an account the ledger does not list -/
+theorem flat_store_bank (ch : Chain E) (wf : Flat.FlatWF ch) (a : Addr) :
+    (Flat.flatten ch).get (Flat.bankKey a) = (ch.bank.get? a).map Json.balancesJson :=
+  Flat.flatten_bank ch wf a
+
+/-- under `00 04 wasm 00 09 contracts ‖ a`: the JSON text of `a`'s `ContractData` -/
+theorem flat_store_registry (ch : Chain E) (wf : Flat.FlatWF ch) (a : Addr) :
+    (Flat.flatten ch).get (Flat.contractKey a) = (ch.contracts.get? a).map Json.contractJson :=
+  Flat.flatten_contract ch wf a
+
+/-- **every byte of storage**: two well-formed typed states with the same flat store agree on every balance, every contract record
+and every entry of every contract's store — so "the model's chain state is unchanged" and "the bytes of the bank and wasm
+namespaces are unchanged" are the same statement -/
+theorem equal_bytes_equal_state (ch ch' : Chain E) (wf : Flat.FlatWF ch) (wf' : Flat.FlatWF ch') (h : Flat.flatten ch = Flat.flatten ch') :
+    (∀ a, ch.bank.get? a = ch'.bank.get? a) ∧ (∀ a, ch.contracts.get? a = ch'.contracts.get? a) ∧
+    (∀ a k, (Flat.utf8 a).length ≤ 65521 → (ch.cstore.get? a).bind (·.get k) = (ch'.cstore.get? a).bind (·.get k)) :=
+  Flat.flatten_injective ch ch' wf wf' h
+
+/-- a state with two accounts, one contract and one stored entry -/
+def sampleChain : Chain Unit :=
+  { bank := [("a", [⟨"d1", 5⟩]), ("b", [])]
+    contracts := [("c", { codeId := 1, creator := "a", admin := none, label := "l", created := 7 })]
+    cstore := [("c", [([1], [2])])]
+    ext := () }
+
+/-- not vacuous: it is well-formed -/
+example : Flat.FlatWF sampleChain where
+  bank := by decide
+  contracts := by decide
+  cstore := by decide
+  inner := by
+    intro p hp
+    have : p = ("c", [([1], [2])]) := by simpa [sampleChain] using hp
+    subst this; exact List.pairwise_singleton _ _
+  short := by
+    intro p hp
+    have : p = ("c", [([1], [2])]) := by simpa [sampleChain] using hp
+    subst this
+    show (Flat.utf8 "c").length ≤ 65521
+    rw [Flat.utf8, show "c" = String.ofList ['c'] from rfl, Layout.utf8_ofList]; decide
 
 end CwMt.C01
